@@ -33,6 +33,8 @@ func Lookup(id string) sim.Property {
 		return C02{}
 	case "C03":
 		return C03{}
+	case "C14":
+		return C14{}
 	case "C08":
 		return C08{}
 	}
